@@ -59,7 +59,7 @@ Theorem C17_pass_ok : forall (fired : list (hbkind * bool)) (c : core), (forall 
 Proof. exact heartbeat_pass_ok. Qed.
 
 (* THE MODEL IS THE SOURCE: coq/Gen/Src.v is translated from src/heartbeats.rs (fn fire) on every run by tools/rs2v.py; the translated function - its verdict, Expired or still running, and the duration it re-arms the timer with - and the hand-written model hb_fire are equal for every interval, every time of the last activity and every time of firing, so the theorems of this file are theorems about the translated source; a change to the function (the 5 ms fudge, the comparison, the re-arm time) changes Gen/Src.v and this obligation is re-proved against it, or breaks *)
-Theorem C17_fire_source_is_model : forall last interval deadline now : N, last <= now -> let h := {| h_last := last; h_interval := interval; h_deadline := deadline |} in gen_fire interval (now - last) = RsOk (String.String (Ascii.Ascii false true true false false true true false) (String.String (Ascii.Ascii true false false true false true true false) (String.String (Ascii.Ascii false true false false true true true false) (String.String (Ascii.Ascii true false true false false true true false) String.EmptyString)))) [(String.String (Ascii.Ascii false true false false true true true false) (String.String (Ascii.Ascii true false true false false true true false) (String.String (Ascii.Ascii true true false false true true true false) (String.String (Ascii.Ascii true false true false true true true false) (String.String (Ascii.Ascii false false true true false true true false) (String.String (Ascii.Ascii false false true false true true true false) String.EmptyString))))), if fst (hb_fire now h) then 1 else 0); (String.String (Ascii.Ascii false false true false true true true false) (String.String (Ascii.Ascii true false false true false true true false) (String.String (Ascii.Ascii true false true true false true true false) (String.String (Ascii.Ascii true false true false false true true false) (String.String (Ascii.Ascii false true false false true true true false) (String.String (Ascii.Ascii false true true true false true false false) (String.String (Ascii.Ascii true true false false true true true false) (String.String (Ascii.Ascii true false true false false true true false) (String.String (Ascii.Ascii false false true false true true true false) (String.String (Ascii.Ascii true true true true true false true false) (String.String (Ascii.Ascii false false true false true true true false) (String.String (Ascii.Ascii true false false true false true true false) (String.String (Ascii.Ascii true false true true false true true false) (String.String (Ascii.Ascii true false true false false true true false) (String.String (Ascii.Ascii true true true true false true true false) (String.String (Ascii.Ascii true false true false true true true false) (String.String (Ascii.Ascii false false true false true true true false) (String.String (Ascii.Ascii true true false false false true false false) (String.String (Ascii.Ascii false false false false true true false false) String.EmptyString)))))))))))))))))), h_deadline (snd (hb_fire now h)) - now)].
+Theorem C17_fire_source_is_model : forall last interval deadline now : N, last <= now -> let h := {| h_last := last; h_interval := interval; h_deadline := deadline |} in gen_Heartbeat_fire interval (now - last) = RsOk (String.String (Ascii.Ascii false false false true false false true false) (String.String (Ascii.Ascii true false true false false true true false) (String.String (Ascii.Ascii true false false false false true true false) (String.String (Ascii.Ascii false true false false true true true false) (String.String (Ascii.Ascii false false true false true true true false) (String.String (Ascii.Ascii false true false false false true true false) (String.String (Ascii.Ascii true false true false false true true false) (String.String (Ascii.Ascii true false false false false true true false) (String.String (Ascii.Ascii false false true false true true true false) (String.String (Ascii.Ascii true true true true true false true false) (String.String (Ascii.Ascii false true true false false true true false) (String.String (Ascii.Ascii true false false true false true true false) (String.String (Ascii.Ascii false true false false true true true false) (String.String (Ascii.Ascii true false true false false true true false) String.EmptyString)))))))))))))) [(String.String (Ascii.Ascii false true false false true true true false) (String.String (Ascii.Ascii true false true false false true true false) (String.String (Ascii.Ascii true true false false true true true false) (String.String (Ascii.Ascii true false true false true true true false) (String.String (Ascii.Ascii false false true true false true true false) (String.String (Ascii.Ascii false false true false true true true false) String.EmptyString))))), if fst (hb_fire now h) then 1 else 0); (String.String (Ascii.Ascii false false true false true true true false) (String.String (Ascii.Ascii true false false true false true true false) (String.String (Ascii.Ascii true false true true false true true false) (String.String (Ascii.Ascii true false true false false true true false) (String.String (Ascii.Ascii false true false false true true true false) (String.String (Ascii.Ascii false true true true false true false false) (String.String (Ascii.Ascii true true false false true true true false) (String.String (Ascii.Ascii true false true false false true true false) (String.String (Ascii.Ascii false false true false true true true false) (String.String (Ascii.Ascii true true true true true false true false) (String.String (Ascii.Ascii false false true false true true true false) (String.String (Ascii.Ascii true false false true false true true false) (String.String (Ascii.Ascii true false true true false true true false) (String.String (Ascii.Ascii true false true false false true true false) (String.String (Ascii.Ascii true true true true false true true false) (String.String (Ascii.Ascii true false true false true true true false) (String.String (Ascii.Ascii false false true false true true true false) (String.String (Ascii.Ascii true true false false false true false false) (String.String (Ascii.Ascii false false false false true true false false) String.EmptyString)))))))))))))))))), h_deadline (snd (hb_fire now h)) - now)].
 Proof. exact fire_source_is_model. Qed.
 
 (* non-vacuity: h = 1: a read at 900 ms, silence afterwards, timer events at 2000 and 2900 *)
@@ -84,7 +84,7 @@ Check C17_zero : forall now : N, start_heartbeats now 0 = None.
 Check C17_intervals : forall (now secs : N) (rx tx : hb), start_heartbeats now secs = Some (rx, tx) -> h_interval rx = 2000 * secs /\ h_interval tx = 1000 * secs /\ c_max_missed_server_heartbeats = 2.
 Check C17_missed_not_masked : forall (pre rest : list (hbkind * bool)) (c : core), (forall (k : hbkind) (b : bool), In (k, b) pre -> (k, b) <> (HbRx, true)) -> fst (heartbeat_timers (pre ++ (HbRx, true) :: rest) c) = OErr EMissedHeartbeats.
 Check C17_pass_ok : forall (fired : list (hbkind * bool)) (c : core), (forall (k : hbkind) (b : bool), In (k, b) fired -> (k, b) <> (HbRx, true)) -> fst (heartbeat_timers fired c) = OOk.
-Check C17_fire_source_is_model : forall last interval deadline now : N, last <= now -> let h := {| h_last := last; h_interval := interval; h_deadline := deadline |} in gen_fire interval (now - last) = RsOk (String.String (Ascii.Ascii false true true false false true true false) (String.String (Ascii.Ascii true false false true false true true false) (String.String (Ascii.Ascii false true false false true true true false) (String.String (Ascii.Ascii true false true false false true true false) String.EmptyString)))) [(String.String (Ascii.Ascii false true false false true true true false) (String.String (Ascii.Ascii true false true false false true true false) (String.String (Ascii.Ascii true true false false true true true false) (String.String (Ascii.Ascii true false true false true true true false) (String.String (Ascii.Ascii false false true true false true true false) (String.String (Ascii.Ascii false false true false true true true false) String.EmptyString))))), if fst (hb_fire now h) then 1 else 0); (String.String (Ascii.Ascii false false true false true true true false) (String.String (Ascii.Ascii true false false true false true true false) (String.String (Ascii.Ascii true false true true false true true false) (String.String (Ascii.Ascii true false true false false true true false) (String.String (Ascii.Ascii false true false false true true true false) (String.String (Ascii.Ascii false true true true false true false false) (String.String (Ascii.Ascii true true false false true true true false) (String.String (Ascii.Ascii true false true false false true true false) (String.String (Ascii.Ascii false false true false true true true false) (String.String (Ascii.Ascii true true true true true false true false) (String.String (Ascii.Ascii false false true false true true true false) (String.String (Ascii.Ascii true false false true false true true false) (String.String (Ascii.Ascii true false true true false true true false) (String.String (Ascii.Ascii true false true false false true true false) (String.String (Ascii.Ascii true true true true false true true false) (String.String (Ascii.Ascii true false true false true true true false) (String.String (Ascii.Ascii false false true false true true true false) (String.String (Ascii.Ascii true true false false false true false false) (String.String (Ascii.Ascii false false false false true true false false) String.EmptyString)))))))))))))))))), h_deadline (snd (hb_fire now h)) - now)].
+Check C17_fire_source_is_model : forall last interval deadline now : N, last <= now -> let h := {| h_last := last; h_interval := interval; h_deadline := deadline |} in gen_Heartbeat_fire interval (now - last) = RsOk (String.String (Ascii.Ascii false false false true false false true false) (String.String (Ascii.Ascii true false true false false true true false) (String.String (Ascii.Ascii true false false false false true true false) (String.String (Ascii.Ascii false true false false true true true false) (String.String (Ascii.Ascii false false true false true true true false) (String.String (Ascii.Ascii false true false false false true true false) (String.String (Ascii.Ascii true false true false false true true false) (String.String (Ascii.Ascii true false false false false true true false) (String.String (Ascii.Ascii false false true false true true true false) (String.String (Ascii.Ascii true true true true true false true false) (String.String (Ascii.Ascii false true true false false true true false) (String.String (Ascii.Ascii true false false true false true true false) (String.String (Ascii.Ascii false true false false true true true false) (String.String (Ascii.Ascii true false true false false true true false) String.EmptyString)))))))))))))) [(String.String (Ascii.Ascii false true false false true true true false) (String.String (Ascii.Ascii true false true false false true true false) (String.String (Ascii.Ascii true true false false true true true false) (String.String (Ascii.Ascii true false true false true true true false) (String.String (Ascii.Ascii false false true true false true true false) (String.String (Ascii.Ascii false false true false true true true false) String.EmptyString))))), if fst (hb_fire now h) then 1 else 0); (String.String (Ascii.Ascii false false true false true true true false) (String.String (Ascii.Ascii true false false true false true true false) (String.String (Ascii.Ascii true false true true false true true false) (String.String (Ascii.Ascii true false true false false true true false) (String.String (Ascii.Ascii false true false false true true true false) (String.String (Ascii.Ascii false true true true false true false false) (String.String (Ascii.Ascii true true false false true true true false) (String.String (Ascii.Ascii true false true false false true true false) (String.String (Ascii.Ascii false false true false true true true false) (String.String (Ascii.Ascii true true true true true false true false) (String.String (Ascii.Ascii false false true false true true true false) (String.String (Ascii.Ascii true false false true false true true false) (String.String (Ascii.Ascii true false true true false true true false) (String.String (Ascii.Ascii true false true false false true true false) (String.String (Ascii.Ascii true true true true false true true false) (String.String (Ascii.Ascii true false true false true true true false) (String.String (Ascii.Ascii false false true false true true true false) (String.String (Ascii.Ascii true true false false false true false false) (String.String (Ascii.Ascii false false false false true true false false) String.EmptyString)))))))))))))))))), h_deadline (snd (hb_fire now h)) - now)].
 
 Print Assumptions C17_not_early.
 Print Assumptions C17_prompt.
